@@ -200,7 +200,11 @@ fn check_model(
     st: &mut (u64, u64, u64, u64),
     samples: &mut Vec<Value>,
 ) {
+    let t0 = std::time::Instant::now();
     let (m, ns, nt, cap) = aut.max_events(h);
+    if t0.elapsed().as_secs_f64() > 20.0 {
+        ctx.note(format!("slow automaton ({:.0} s, {} states): {:?}", t0.elapsed().as_secs_f64(), ns, spec));
+    }
     st.0 += ns as u64;
     st.1 += nt as u64;
     if cap {
@@ -352,6 +356,32 @@ pub fn run_c10(ctx: &mut Ctx) -> (String, Value, Vec<String>) {
         let spec = ArrSpec::SporadicFromPeriodic { t };
         check_model(ctx, "arrival::Sporadic::from(Periodic)", &spec, &Aut::of(&spec).unwrap(), h, true, &mut st, &mut samples);
         models += 3;
+    }
+    if !quick {
+        // larger parameters (the automata stay small: T + J states)
+        for (t, j) in [(13u64, 0u64), (13, 40), (27, 7), (27, 120), (50, 49), (50, 333), (97, 100)] {
+            let spec = ArrSpec::Sporadic { t, j };
+            check_model(ctx, "arrival::Sporadic", &spec, &Aut::of(&spec).unwrap(), 400, true, &mut st, &mut samples);
+            let spec = ArrSpec::Jitter { inner: Box::new(ArrSpec::Periodic { t }), j };
+            check_model(ctx, "clone_with_jitter", &spec, &Aut::of(&spec).unwrap(), 400, true, &mut st, &mut samples);
+            models += 2;
+        }
+        for pf in [vec![0u64, 17, 30], vec![5, 5, 21, 22], vec![3, 21], vec![0, 0, 12, 26], vec![7, 14, 21, 28]] {
+            let spec = ArrSpec::Curve { dmin: pf.clone() };
+            let aut = Aut::of(&spec).unwrap();
+            check_model(ctx, "arrival::Curve", &spec, &aut, 300, false, &mut st, &mut samples);
+            if is_superadditive(&pf) {
+                let spec = ArrSpec::ExtCurve { dmin: pf.clone() };
+                check_model(ctx, "arrival::ExtrapolatingCurve", &spec, &aut, 300, false, &mut st, &mut samples);
+            }
+            if pf.len() <= 3 {
+                // (the token automaton over long prefixes with large distances is too big)
+                let spec = ArrSpec::Propagated { inner: Box::new(ArrSpec::Curve { dmin: pf.clone() }), j: 4 };
+                check_model(ctx, "arrival::Propagated", &spec, &Aut::of(&spec).unwrap(), 80, false, &mut st, &mut samples);
+                models += 1;
+            }
+            models += 2;
+        }
     }
     // delta-min prefixes: every non-decreasing prefix (not only super-additive ones)
     let prefixes = nondecreasing_prefixes(if quick { 3 } else { 4 }, 6);
